@@ -17,6 +17,22 @@ owns the orbits whose lexicographically smallest member starts with its (v0, v1)
 member of the orbit is executed and compared with the oracle, so every sequence is executed
 exactly once and the rotation / reversal invariance is checked explicitly.
 Oracle: crossing parity of the ray towards +x in integer arithmetic (coordinates x4).
+
+Size ladders (added; same integer oracle):
+  vertex count : regular lattice polygons - staircase (unit steps), comb (teeth of height 3 on a base of height 1),
+             saw (zig-zag edges of slope +-1) - with exactly n vertices for every n of the ladder 7..1025 (thorough:
+             ..4097, 10001); each as given, rotated by n/3 and reversed, open and closed, under every transform, plus
+             the pre-filled answer vector; query points = product of the quarter-lattice positions within 3/4 of the
+             anchors {0, 1, w/2, w-1, w, powers of two and their successors} of each axis (all positions when the
+             extent is <= 12);
+  point count  : 4 polygons x P points of the full quarter lattice for every P of the ladder (stride coprime with
+             the lattice size), with and without the pre-filled answer vector;
+  grid size    : cells_inside_polygon on half-unit grids that cover staircases / combs of 16..257 vertices
+             (up to 132 x 132 cells; thorough 16..1025).
+Layouts (added, differential): on every ladder polygon (identity and translate-far transform) and on the first vertex
+  list of every exhaustive unit the points and the polygon are passed again as list, read-only, Fortran order,
+  strided rows / columns, big-endian, float32 / float16 / int32 / int64 (only values exactly representable) and
+  DataFrame; the answers must equal those of the float64 C-contiguous call; a refused layout is counted.
 """
 import itertools
 from fractions import Fraction
@@ -32,13 +48,21 @@ RULE = ("every vertex sequence of length n over {0..K}^2 (tier bound), open and 
         "cell); it is non-trivial when the point lies in the closed bounding box of the polygon, i.e. the "
         "crossing loop of the kernel decides it. Sequences are partitioned into orbits under rotation and "
         "reversal (canonical = lexicographic minimum), each orbit is owned by one unit and each member is "
-        "executed once, so cases are distinct by construction.")
+        "executed once, so cases are distinct by construction. SIZE LADDERS: one unit per (family in staircase / "
+        "comb / saw, n in the ladder 7..1025 [thorough ..10001]) running 3 vertex-list variants x open/closed x the "
+        "transforms over the anchor-product quarter lattice; units of 6 point counts per polygon for the point-count "
+        "ladder; units of 2 growing grids for cells_inside_polygon. LAYOUTS: 14 containers / dtypes / stride patterns "
+        "for the points and for the polygon, on every ladder polygon and the first vertex list of each exhaustive unit "
+        "(differential against the float64 C-contiguous call).")
 ASSUMPTIONS = [
     "query points exactly on an edge or vertex (exact integer test) are not judged; every other lattice point is at least 1/(4*sqrt(2)*K) ~ 0.06 lattice units from every edge, far beyond the tolerance 1e-8 and the 1e-6 x size margin of the property, also after scaling by 1e-3 / 2^-10",
     "the even-odd answer of a zero-area or self-overlapping vertex list is the crossing parity of the closed polyline (well defined off the polyline)",
     "transforms are computed as k*s+t in float64 for vertices and points alike; lattice relations (level with a vertex) are preserved exactly because both use the same float operations",
     "cells_inside_polygon: cells whose centre is exactly on an edge may or may not be returned; the x, y columns must be the centres of the returned cells; no duplicates",
     "extension modules rebuilt from the working tree C sources; Cython wrapper C not re-translated",
+    "ladder polygons have integer vertices and slopes 0, infinity, +-1; the query points stay on the quarter lattice, so every judged point is >= 0.17 lattice units from every edge (> 1e-6 x size for extents up to 5000) and all kernel arithmetic on them is exact; points on an edge are excluded by the same exact integer test",
+    "ladder vertex counts are completed with collinear lattice vertices on the bottom edge (and a repeated last vertex when that edge has no lattice point left), both allowed by the quantifier",
+    "layout variants convert only values that are exactly representable in the target dtype; a layout refused with a Python exception (lists, Fortran order and DataFrames are refused by the present wrapper) is accepted and counted in layout.rejected.*; a different answer is a violation pip:layout=<points|polygon>-<name>",
 ]
 
 TRANSFORMS = [("id", 1.0, 0.0, 0.0), ("translate", 1.0, 1000.0, -77.0), ("scale", 2.0 ** 10, 0.0, 0.0),
@@ -72,7 +96,11 @@ def bound_text(tier, seed):
     sp = spaces(tier)
     return ("all vertex sequences: " + ", ".join("length %d over {0..%d}^2 (%d)%s" % (
         n, K, ((K + 1) ** 2) ** n, "" if wc else " [no cells_inside_polygon]") for K, n, wc in sp) +
-        "; open + closed form; quarter lattice on [-1/2, K+1/2]^2; transforms %s" % (transforms(seed),))
+        "; open + closed form; quarter lattice on [-1/2, K+1/2]^2; transforms %s" % (transforms(seed),) +
+        "; size ladders: staircase / comb / saw polygons with n vertices, n in %s, 3 vertex-list variants, sparse anchor "
+        "quarter lattice; point counts %s on polygons %s; cells_inside_polygon on growing grids for %s; 14 layout "
+        "variants of points and polygon on the ladder polygons and the first vertex list of every exhaustive unit" % (
+            ladder(tier), ladder(tier), NPOINTS_POLYGONS, CELL_LADDER + (CELL_LADDER_THOROUGH if tier != "quick" else [])))
 
 
 def units(tier, seed):
@@ -82,6 +110,17 @@ def units(tier, seed):
         for v0 in range(nv):
             for v1 in range(v0, nv):       # canonical minimum starts with its smallest vertex
                 us.append({"K": K, "n": n, "v0": v0, "v1": v1, "cells": wc, "seed": seed})
+    # size ladders
+    for family in FAMILIES:
+        for n in ladder(tier):
+            us.append({"kind": "ladder", "family": family, "n": n, "seed": seed})
+    lad = ladder(tier)
+    for name, n in NPOINTS_POLYGONS:
+        for k in range(0, len(lad), 6):
+            us.append({"kind": "npoints", "polygon": name, "n": n, "sizes": lad[k:k + 6], "seed": seed})
+    items = CELL_LADDER + (CELL_LADDER_THOROUGH if tier != "quick" else [])
+    for k in range(0, len(items), 2):
+        us.append({"kind": "cells-ladder", "items": [list(i) for i in items[k:k + 2]], "seed": seed})
     return us
 
 
@@ -143,7 +182,8 @@ def float_points(PX, PY, tr):
     return np.ascontiguousarray(np.column_stack([(PX * 0.25) * s + tx, (PY * 0.25) * s + ty]))
 
 
-def check_pip(ctx, gutils, vxy, closed, tr, PX, PY, P, exp, onedge, inbox, level, prealloc=False, base_fail=None):
+def check_pip(ctx, gutils, vxy, closed, tr, PX, PY, P, exp, onedge, inbox, level, prealloc=False, base_fail=None,
+              case_base=None, keysfx=""):
     """one call of points_inside_polygon over the whole lattice.
     base_fail: set of failure classes already seen for the base call (open form, identity transform) of this
     vertex list; a class that fails there keeps its short key, a class that fails ONLY in another form /
@@ -151,6 +191,8 @@ def check_pip(ctx, gutils, vxy, closed, tr, PX, PY, P, exp, onedge, inbox, level
     poly = float_poly(vxy, closed, tr)
     case = {"kind": "pip", "K": int((int(PX.max()) - 2) // 4), "verts": [list(v) for v in vxy], "closed": closed,
             "transform": list(tr), "prealloc": prealloc}
+    if case_base is not None:       # size ladder: the case names the generator (family, n, variant), not the vertex list
+        case = dict(case_base, closed=closed, transform=list(tr), prealloc=prealloc)
     judged = ~onedge
     nj = int(judged.sum())
     try:
@@ -161,7 +203,7 @@ def check_pip(ctx, gutils, vxy, closed, tr, PX, PY, P, exp, onedge, inbox, level
             res = gutils.points_inside_polygon(P, poly)
     except Exception as e:
         ctx.case(True, n=nj)
-        ctx.violation("pip:raised:%s" % type(e).__name__, case, "points_inside_polygon raised %r" % (e,))
+        ctx.violation("pip:raised:%s" % type(e).__name__ + keysfx, case, "points_inside_polygon raised %r" % (e,))
         return None
     res = np.asarray(res)
     ntriv = int((judged & inbox).sum())
@@ -169,12 +211,12 @@ def check_pip(ctx, gutils, vxy, closed, tr, PX, PY, P, exp, onedge, inbox, level
     if nj - ntriv:
         ctx.case(False, n=nj - ntriv)
     if res.shape != (len(P),):
-        ctx.violation("pip:shape", case, "result shape %r for %d points" % (res.shape, len(P)))
+        ctx.violation("pip:shape" + keysfx, case, "result shape %r for %d points" % (res.shape, len(P)))
         return None
     bad01 = judged & (res != 0) & (res != 1)
     if bad01.any():
         i = int(np.flatnonzero(bad01)[0])
-        ctx.violation("pip:value-not-0-1", dict(case, point=[int(PX[i]), int(PY[i])]),
+        ctx.violation("pip:value-not-0-1" + keysfx, dict(case, point=[int(PX[i]), int(PY[i])]),
                       "answer %r for point %r" % (int(res[i]), P[i].tolist()))
     wrong = judged & ((res == 1) != exp) & ~bad01
     if wrong.any():
@@ -193,10 +235,11 @@ def check_pip(ctx, gutils, vxy, closed, tr, PX, PY, P, exp, onedge, inbox, level
                 base_fail.add(kcls)
             elif kcls not in base_fail:
                 key += ":only-%s-%s" % (form, tr[0])
-            ctx.violation(key, dict(case, point=[int(PX[i]), int(PY[i])]),
+            ctx.violation(key + keysfx, dict(case, point=[int(PX[i]), int(PY[i])]),
                           "polygon %s (%s, transform x%r + (%r, %r)): point %r (lattice (%g, %g)) is %s under the "
                           "even-odd rule, points_inside_polygon says %d" % (
-                              [list(v) for v in vxy], "closed" if closed else "open", tr[1], tr[2], tr[3],
+                              [list(v) for v in vxy] if len(vxy) <= 12 else "%s ... (%d vertices)" % ([list(v) for v in vxy[:8]], len(vxy)),
+                              "closed" if closed else "open", tr[1], tr[2], tr[3],
                               P[i].tolist(), PX[i] / 4.0, PY[i] / 4.0, "inside" if exp[i] else "outside", int(res[i])),
                           observed=int(res[i]), expected=int(exp[i]))
     else:
@@ -353,8 +396,384 @@ def check_sequence(ctx, gutils, K, seq, canon_exp, PX, PY, Pts, trs, with_cells,
     return exp, onedge
 
 
+# ---------------------------------------------------------------------------
+# size ladders: regular lattice polygons with many vertices, many query points, and array layouts
+
+LADDER = [7, 8, 9, 15, 16, 17, 31, 32, 33, 63, 64, 65, 100, 127, 128, 129, 255, 256, 257, 500, 501, 511, 512, 513,
+          1000, 1001, 1023, 1024, 1025]
+LADDER_THOROUGH = [2047, 2048, 2049, 4095, 4096, 4097, 10001]
+FAMILIES = ["staircase", "comb", "saw"]
+KEYSFX = ":vertex-ladder"
+
+
+def ladder(tier):
+    return LADDER + (LADDER_THOROUGH if tier != "quick" else [])
+
+
+def family_polygon(family, n):
+    """integer lattice polygon of exactly n vertices (n >= 7).
+    staircase: s = (n-2)//2 unit steps up-right, closed along x = s and y = 0
+    comb     : t = n//4 teeth of height 3 and width 1 on a base of height 1
+    saw      : zig-zag top edge between y = 2 and y = 3 (edges of slope +-1), closed along y = 0
+    the count is completed with collinear lattice vertices on the closing (bottom) edge, then with a repeated
+    last vertex when the bottom edge has no lattice point left"""
+    if family == "staircase":
+        k = (n - 2) // 2
+        v = [(0, 0)]
+        for i in range(k):
+            v += [(i, i + 1), (i + 1, i + 1)]
+        v.append((k, 0))
+        width = k
+    elif family == "comb":
+        t = n // 4
+        v = [(0, 0)]
+        for i in range(t):
+            v += [(2 * i, 3), (2 * i + 1, 3)]
+            if i < t - 1:
+                v += [(2 * i + 1, 1), (2 * i + 2, 1)]
+        v.append((2 * t - 1, 0))
+        width = 2 * t - 1
+    elif family == "saw":
+        m = n - 3
+        v = [(0, 0)] + [(i, 2 + (i % 2)) for i in range(m + 1)] + [(m, 0)]
+        width = m
+    else:
+        raise ValueError(family)
+    pad = n - len(v)
+    if pad < 0:
+        raise RuntimeError("family %s cannot have %d vertices" % (family, n))
+    extra = [(x, 0) for x in range(width - 1, 0, -1)][:pad]
+    v += extra
+    while len(v) < n:
+        v.append(v[-1])
+    return v
+
+
+def variant_of(v, variant):
+    """same polygon, other vertex list: rotated start, reversed orientation"""
+    if variant == "base":
+        return list(v)
+    n = len(v)
+    k = n // 3
+    r = v[k:] + v[:k]
+    if variant == "rotated":
+        return r
+    if variant == "reversed":
+        return r[::-1]
+    raise ValueError(variant)
+
+
+def anchors_1d(w):
+    a = set(k for k in (0, 1, w // 2, w - 1, w) if 0 <= k <= w)
+    a.update(t for t in (7, 8, 16, 17, 32, 33, 64, 65, 128, 256, 257, 512, 1024, 2048, 4096) if t <= w)
+    return sorted(a)
+
+
+def quarter_positions(w):
+    """quarter-lattice coordinates (x4) on [-1/2, w+1/2]: every quarter position when w <= 12, else the
+    quarter positions within 3/4 of an anchor (ends, middle, next to powers of two)"""
+    if w <= 12:
+        return list(range(-2, 4 * w + 3))
+    q = set([-2, 4 * w + 2])
+    for a in anchors_1d(w):
+        for d in range(-3, 4):
+            if -2 <= 4 * a + d <= 4 * w + 2:
+                q.add(4 * a + d)
+    return sorted(q)
+
+
+def ladder_points(verts):
+    w = max(x for x, _ in verts)
+    h = max(y for _, y in verts)
+    qx = np.array(quarter_positions(w), dtype=np.int64)
+    qy = np.array(quarter_positions(h), dtype=np.int64)
+    PX, PY = np.meshgrid(qx, qy, indexing="ij")
+    return PX.ravel(), PY.ravel()
+
+
+def masks(verts4, PX, PY):
+    xs4 = [v[0] for v in verts4]
+    ys4 = [v[1] for v in verts4]
+    inbox = (PX >= min(xs4)) & (PX <= max(xs4)) & (PY >= min(ys4)) & (PY <= max(ys4))
+    level = np.isin(PY, np.array(sorted(set(ys4)), dtype=np.int64))
+    return inbox, level
+
+
+def check_ladder_polygon(ctx, gutils, family, n, trs, variants=("base", "rotated", "reversed"), only=None):
+    """one ladder polygon: every variant x open/closed x transform over the sparse quarter lattice.
+    only = (variant, closed, transform, prealloc) for a replay"""
+    base = family_polygon(family, n)
+    PX, PY = ladder_points(base)
+    verts4 = [(4 * x, 4 * y) for x, y in base]
+    exp, onedge = oracle(verts4, PX, PY)
+    inbox, level = masks(verts4, PX, PY)
+    ctx.count("ladder.polygons")
+    ctx.count("ladder.judged_points_per_polygon_sum", int((~onedge).sum()))
+    if not exp[~onedge].any() or exp[~onedge].all():
+        raise RuntimeError("ladder polygon %s/%d: the sparse lattice does not see both inside and outside" % (family, n))
+    Pts = {}
+    for variant in variants:
+        vxy = variant_of(base, variant)
+        if variant != "base":
+            e2, o2 = oracle([(4 * x, 4 * y) for x, y in vxy], PX, PY)
+            if not (np.array_equal(e2, exp) and np.array_equal(o2, onedge)):
+                raise RuntimeError("oracle not invariant under rotation/reversal for %s/%d" % (family, n))
+        cb = {"kind": "pip-ladder", "family": family, "n": n, "variant": variant}
+        base_fail = set()
+        for closed in (False, True):
+            for tr in trs:
+                if only is not None and (variant, closed, tuple(tr), False) != only:
+                    continue
+                if tuple(tr) not in Pts:
+                    Pts[tuple(tr)] = float_points(PX, PY, tr)
+                check_pip(ctx, gutils, vxy, closed, tr, PX, PY, Pts[tuple(tr)], exp, onedge, inbox, level,
+                          base_fail=None if only is not None else base_fail, case_base=cb, keysfx=KEYSFX)
+        if only is None or only == (variant, False, tuple(trs[0]), True):
+            if tuple(trs[0]) not in Pts:
+                Pts[tuple(trs[0])] = float_points(PX, PY, trs[0])
+            check_pip(ctx, gutils, vxy, False, trs[0], PX, PY, Pts[tuple(trs[0])], exp, onedge, inbox, level, prealloc=True,
+                      base_fail=None if only is not None else base_fail, case_base=cb, keysfx=KEYSFX)
+    return base, PX, PY, exp, onedge
+
+
+# ---- number of query points
+NPOINTS_POLYGONS = [("staircase", 52), ("comb", 64), ("saw", 40), ("lattice", 0)]
+BOWTIE = [(0, 0), (3, 3), (3, 0), (0, 3), (1, 2), (2, 2)]     # self-intersecting K = 3 polygon with a collinear run
+
+
+def npoints_polygon(name, n):
+    return list(BOWTIE) if name == "lattice" else family_polygon(name, n)
+
+
+def npoints_case_points(verts, npts):
+    """npts distinct points of the full quarter lattice on [-1/2, w+1/2] x [-1/2, h+1/2], taken with a stride
+    that is coprime with the lattice size (deterministic, spread over the whole box)"""
+    w = max(x for x, _ in verts)
+    h = max(y for _, y in verts)
+    nx, ny = 4 * w + 5, 4 * h + 5
+    tot = nx * ny
+    if npts > tot:
+        return None
+    step = 7919
+    while np.gcd(step, tot) != 1:
+        step += 2
+    idx = (np.arange(npts, dtype=np.int64) * step) % tot
+    return idx // ny - 2, idx % ny - 2
+
+
+def check_npoints(ctx, gutils, name, n, npts, prealloc):
+    verts = npoints_polygon(name, n)
+    pp = npoints_case_points(verts, npts)
+    if pp is None:
+        ctx.count("npoints.lattice_smaller_than_point_count_skipped")
+        return
+    PX, PY = pp
+    verts4 = [(4 * x, 4 * y) for x, y in verts]
+    exp, onedge = oracle(verts4, PX, PY)
+    inbox, level = masks(verts4, PX, PY)
+    tr = TRANSFORMS[0]
+    cb = {"kind": "pip-npoints", "polygon": name, "n": n, "npoints": npts}
+    ctx.count("npoints.calls")
+    check_pip(ctx, gutils, verts, False, tr, PX, PY, float_points(PX, PY, tr), exp, onedge, inbox, level,
+              prealloc=prealloc, case_base=cb, keysfx=":point-ladder")
+
+
+# ---- layouts (differential)
+def _ro(a):
+    a = a.copy()
+    a.setflags(write=False)
+    return a
+
+
+def _srows(a):
+    big = np.full((2 * a.shape[0] + 1, a.shape[1]), 0.375, dtype=a.dtype)
+    big[1::2] = a
+    return big[1::2]
+
+
+def _scols(a):
+    big = np.full((a.shape[0], 2 * a.shape[1]), 0.375, dtype=a.dtype)
+    big[:, ::2] = a
+    return big[:, ::2]
+
+
+def layout_variants():
+    """(name, converter, needs) ; needs in {None, 'float32', 'int'}"""
+    import pandas as pd
+    return [("list", lambda a: a.tolist(), None),
+            ("readonly", _ro, None),
+            ("fortran", np.asfortranarray, None),
+            ("strided-rows", _srows, None),
+            ("strided-columns", _scols, None),
+            ("negative-stride-copy", lambda a: a[::-1][::-1], None),
+            ("bigendian", lambda a: a.astype(">f8"), None),
+            ("float32", lambda a: a.astype(np.float32), "float32"),
+            ("float32-strided-rows", lambda a: _srows(a.astype(np.float32)), "float32"),
+            ("float16", lambda a: a.astype(np.float16), "float16"),
+            ("int64", lambda a: a.astype(np.int64), "int"),
+            ("int32", lambda a: a.astype(np.int32), "int"),
+            ("int64-strided-rows", lambda a: _srows(a.astype(np.int64)), "int"),
+            ("dataframe", lambda a: pd.DataFrame(a, columns=["x", "y"]), None)]
+
+
+def exact_in(a, needs):
+    if needs is None:
+        return np.ones(len(a), dtype=bool)
+    if needs == "int":
+        return (np.round(a) == a).all(axis=1) & (np.abs(a) < 2 ** 31).all(axis=1)
+    dt = np.float32 if needs == "float32" else np.float16
+    return (a.astype(dt).astype(np.float64) == a).all(axis=1)
+
+
+def check_layouts(ctx, gutils, vxy, PX, PY, tr, case):
+    """the same polygon and points in other containers / dtypes / strides must give the float64 C-contiguous answer"""
+    poly = float_poly(vxy, False, tr)
+    P = float_points(PX, PY, tr)
+    try:
+        ref = np.asarray(gutils.points_inside_polygon(P, poly)).copy()
+    except Exception:
+        ctx.count("layout.unjudged.reference_raised")
+        return
+    for name, conv, needs in layout_variants():
+        # points in another layout (only the points that are exactly representable)
+        m = exact_in(P, needs)
+        if m.any():
+            try:
+                out = np.asarray(gutils.points_inside_polygon(conv(P[m]), poly))
+                ctx.case(True, outcome=out.tobytes(), n=int(m.sum()))
+                if out.shape == ref[m].shape and np.array_equal(out, ref[m]):
+                    ctx.count("layout.agree.points.%s" % name)
+                else:
+                    i = int(np.flatnonzero(out != ref[m])[0]) if out.shape == ref[m].shape else None
+                    ctx.violation("pip:layout=points-%s" % name, dict(case, layout="points-" + name),
+                                  "the same %d points given as %s: answers differ from the float64 C-contiguous call%s" % (
+                                      int(m.sum()), name, "" if i is None else " (first at point %r: %d vs %d)" % (
+                                          P[m][i].tolist(), int(out[i]), int(ref[m][i]))))
+            except Exception:
+                ctx.case(True, n=int(m.sum()))
+                ctx.count("layout.rejected.points.%s" % name)
+        else:
+            ctx.count("layout.unjudged.points.%s.no_exact_point" % name)
+        # polygon in another layout (all vertices must be exactly representable)
+        if exact_in(poly, needs).all():
+            try:
+                out = np.asarray(gutils.points_inside_polygon(P, conv(poly)))
+                ctx.case(True, outcome=out.tobytes(), n=len(P))
+                if out.shape == ref.shape and np.array_equal(out, ref):
+                    ctx.count("layout.agree.polygon.%s" % name)
+                else:
+                    i = int(np.flatnonzero(out != ref)[0]) if out.shape == ref.shape else None
+                    ctx.violation("pip:layout=polygon-%s" % name, dict(case, layout="polygon-" + name),
+                                  "the same %d vertices given as %s: answers differ from the float64 C-contiguous call%s" % (
+                                      len(poly), name, "" if i is None else " (first at point %r: %d vs %d)" % (
+                                          P[i].tolist(), int(out[i]), int(ref[i]))))
+            except Exception:
+                ctx.case(True, n=len(P))
+                ctx.count("layout.rejected.polygon.%s" % name)
+        else:
+            ctx.count("layout.unjudged.polygon.%s.not_exact" % name)
+
+
+# ---- cells_inside_polygon on grids that grow with the polygon
+def ladder_grid(family, n):
+    """(ncols, nrows, csz, xll, yll): half-unit cells covering the polygon's box plus half a unit on every side;
+    the centres are odd quarter-lattice points, never on an edge of an axis-parallel polygon"""
+    v = family_polygon(family, n)
+    w = max(x for x, _ in v)
+    h = max(y for _, y in v)
+    return (2 * (w + 1), 2 * (h + 1), 0.5, -0.5, -0.5)
+
+
+def check_cells_ladder(ctx, family, n, layout=None):
+    from hydrodiy.gis.grid import Grid
+    vxy = family_polygon(family, n)
+    verts4 = [(4 * x, 4 * y) for x, y in vxy]
+    gdef = ladder_grid(family, n)
+    ncols, nrows, csz, xll, yll = gdef
+    CX, CY = grid_centres4(gdef)
+    inside, onedge = oracle(verts4, CX, CY)
+    case = {"kind": "cells-ladder", "family": family, "n": n, "layout": layout}
+    poly = float_poly(vxy, False, TRANSFORMS[0])
+    if layout is not None:
+        poly = dict((nm, cv) for nm, cv, _ in layout_variants())[layout](poly)
+    g = Grid("ladder", ncols=ncols, nrows=nrows, cellsize=csz, xllcorner=xll, yllcorner=yll)
+    ncell = len(CX)
+    try:
+        df = g.cells_inside_polygon(poly)
+        cells = [int(c) for c in df["cell"].values]
+        xs = np.asarray(df["x"].values, dtype=np.float64)
+        ys = np.asarray(df["y"].values, dtype=np.float64)
+    except Exception as e:
+        ctx.case(True, n=ncell)
+        if layout is not None:
+            ctx.count("layout.rejected.cells_inside_polygon.%s" % layout)
+            return
+        ctx.violation("cells_inside_polygon:raised:%s:grid-ladder" % type(e).__name__, case, "raised %r" % (e,))
+        return
+    ctx.case(True, outcome=tuple(cells), n=int((~onedge).sum()))
+    ctx.count("cells.ladder_calls")
+    sfx = ":grid-ladder" if layout is None else ":layout=polygon-%s" % layout
+    if len(set(cells)) != len(cells):
+        ctx.violation("cells_inside_polygon:duplicate-cells" + sfx, case, "%d cells, %d distinct" % (len(cells), len(set(cells))))
+    got = set(cells)
+    must = set(int(c) for c in np.flatnonzero(inside & ~onedge))
+    may = set(int(c) for c in np.flatnonzero(onedge))
+    missing = sorted(must - got)
+    extra = sorted(got - must - may)
+    if missing:
+        ctx.violation("cells_inside_polygon:missing-cell" + sfx, case,
+                      "%s polygon with %d vertices on a %dx%d grid (cellsize %r, corner (%r, %r)): %d cells have their centre "
+                      "inside but are not returned, first %r" % (family, n, nrows, ncols, csz, xll, yll, len(missing), missing[:6]),
+                      observed=len(cells), expected=len(must))
+    if extra:
+        ctx.violation("cells_inside_polygon:extra-cell" + sfx, case,
+                      "%s polygon with %d vertices on a %dx%d grid (cellsize %r, corner (%r, %r)): %d cells returned but their "
+                      "centre is outside (or not a cell), first %r" % (family, n, nrows, ncols, csz, xll, yll, len(extra), extra[:6]),
+                      observed=len(cells), expected=len(must))
+    ok = [c for c in cells if 0 <= c < ncell]
+    if len(ok) == len(cells) and len(cells):
+        ca = np.array(cells)
+        if not (np.array_equal(xs * 4, CX[ca]) and np.array_equal(ys * 4, CY[ca])):
+            ctx.violation("cells_inside_polygon:xy-not-centre" + sfx, case, "the x / y columns are not the centres of the returned cells")
+    if not (missing or extra):
+        ctx.count("cells.calls_agree")
+
+
+CELL_LADDER = [("staircase", 16), ("staircase", 17), ("staircase", 33), ("staircase", 64), ("staircase", 65),
+               ("comb", 16), ("comb", 33), ("comb", 64), ("comb", 129), ("comb", 257)]
+CELL_LADDER_THOROUGH = [("staircase", 128), ("staircase", 129), ("staircase", 257), ("comb", 512), ("comb", 1025)]
+
+
+def run_ladder_unit(unit, ctx):
+    from hydrodiy.gis import gutils
+    kind = unit["kind"]
+    trs = transforms(unit["seed"])
+    if kind == "ladder":
+        family, n = unit["family"], unit["n"]
+        ctx.case(False, n=0, sample={"kind": "pip-ladder", "family": family, "n": n, "variant": "base", "closed": False,
+                                     "transform": list(trs[0]), "prealloc": False})
+        base, PX, PY, exp, onedge = check_ladder_polygon(ctx, gutils, family, n, trs)
+        check_layouts(ctx, gutils, base, PX, PY, trs[0], {"kind": "pip-layout", "family": family, "n": n, "transform": list(trs[0])})
+        # far from the origin: float32 cannot hold these points, int64 can
+        check_layouts(ctx, gutils, base, PX, PY, trs[5], {"kind": "pip-layout", "family": family, "n": n, "transform": list(trs[5])})
+    elif kind == "npoints":
+        name, n = unit["polygon"], unit["n"]
+        ctx.case(False, n=0, sample={"kind": "pip-npoints", "polygon": name, "n": n, "npoints": unit["sizes"][0],
+                                     "closed": False, "transform": list(TRANSFORMS[0]), "prealloc": False})
+        for npts in unit["sizes"]:
+            for prealloc in (False, True):
+                check_npoints(ctx, gutils, name, n, npts, prealloc)
+    elif kind == "cells-ladder":
+        for family, n in unit["items"]:
+            check_cells_ladder(ctx, family, n)
+            for lay in ("int64", "float32", "fortran", "list", "strided-rows", "readonly"):
+                check_cells_ladder(ctx, family, n, layout=lay)
+
+
 def run_unit(unit, ctx):
     from hydrodiy.gis import gutils
+    if "kind" in unit:
+        return run_ladder_unit(unit, ctx)
     K, n, v0, v1 = unit["K"], unit["n"], unit["v0"], unit["v1"]
     nv = (K + 1) ** 2
     trs = transforms(unit["seed"])
@@ -373,6 +792,10 @@ def run_unit(unit, ctx):
             first = False
         canon = check_sequence(ctx, gutils, K, s, None, PX, PY, Pts, trs, unit["cells"])
         ctx.count("sequences")
+        if ctx.counters.get("orbits") == 1:
+            # first vertex list of the unit: the same call in other array layouts
+            check_layouts(ctx, gutils, [vert_xy(v, K) for v in s], PX, PY, trs[0],
+                          {"kind": "pip-layout", "K": K, "verts": [list(vert_xy(v, K)) for v in s], "transform": list(trs[0])})
         for m in sorted(orb):
             if m == s:
                 continue
@@ -390,6 +813,35 @@ def replay(case):
             self.violations.setdefault(key, []).append(
                 {"key": key, "case": case, "msg": msg, "observed": observed, "expected": expected})
     ctx = All()
+    if case["kind"] == "pip-ladder":
+        trs = [tuple(case["transform"])]
+        check_ladder_polygon(ctx, gutils, case["family"], case["n"], trs, variants=(case["variant"],),
+                             only=(case["variant"], case["closed"], tuple(case["transform"]), case.get("prealloc", False)))
+        out = [v for lst in ctx.violations.values() for v in lst]
+        if "point" in case:
+            out = [v for v in out if v["case"].get("point") == case["point"]]
+        return out
+    if case["kind"] == "pip-npoints":
+        check_npoints(ctx, gutils, case["polygon"], case["n"], case["npoints"], case.get("prealloc", False))
+        out = [v for lst in ctx.violations.values() for v in lst]
+        if "point" in case:
+            out = [v for v in out if v["case"].get("point") == case["point"]]
+        return out
+    if case["kind"] == "cells-ladder":
+        check_cells_ladder(ctx, case["family"], case["n"], layout=case.get("layout"))
+        return [v for lst in ctx.violations.values() for v in lst]
+    if case["kind"] == "pip-layout":
+        if "family" in case:
+            vl = family_polygon(case["family"], case["n"])
+            LX, LY = ladder_points(vl)
+        else:
+            vl = [tuple(v) for v in case["verts"]]
+            LX, LY = lattice_points(case["K"])
+        check_layouts(ctx, gutils, vl, LX, LY, tuple(case["transform"]), {k: v for k, v in case.items() if k != "layout"})
+        out = [v for lst in ctx.violations.values() for v in lst]
+        if "layout" in case:
+            out = [v for v in out if v["case"].get("layout") == case["layout"]]
+        return out
     vxy = [tuple(v) for v in case["verts"]]
     K = case.get("K") or max(2, max(max(v) for v in vxy))
     verts4 = [(4 * x, 4 * y) for x, y in vxy]
